@@ -100,7 +100,7 @@ def open_tty() -> int:
     return os.open("/dev/tty", os.O_RDWR | os.O_NOCTTY)
 
 
-def make_terminal(dbfile: str, terminal_id: str, log: EventLog, tty_fd: int, *, cmd_sink=None, **config):
+def make_terminal(dbfile: str, terminal_id: str, log: EventLog, tty_fd: int, *, cmd_sink=None, terminal_name="xterm-kitty", **config):
     import tupimage
 
     cmd = CapStream("cmd:" + terminal_id, log, tty_fd, sink=cmd_sink)
@@ -112,7 +112,7 @@ def make_terminal(dbfile: str, terminal_id: str, log: EventLog, tty_fd: int, *, 
         id_database=dbfile,
         config="DEFAULT",
         terminal_id=terminal_id,
-        terminal_name="xterm-kitty",
+        terminal_name=terminal_name,
         session_id="S",
         **config,
     )
